@@ -14,7 +14,9 @@
 //   N <c> <m> <args> w  native contract c, method m (hex), raw argument bytes, through native.NativeService (invoke and pre-exec flag)
 //   E <k> <gas> <data>  EIP-155 transaction (k=c: contract creation with init code <data>; k=r: deploy <data> as runtime code in
 //                       one transaction and call it in the next), block execution AND PreExecuteContract
-//   for V/N/E the output is `nocrash` (the model knows nothing more about them); what happened goes to Kind.
+//   W <module> <args>   a wasm module: Deploy transaction (ReadWasmModule on attacker bytes) and, in the same block, an InvokeWasm transaction
+//                       running its `invoke` export in the wagon interpreter; both also pre-executed
+//   for V/N/E/W the output is `nocrash` (the model knows nothing more about them); what happened goes to Kind.
 package main
 
 import (
@@ -55,7 +57,7 @@ func note(s string) {
 
 var reFrame = regexp.MustCompile(`^([^\s(][^\n]*?)\(`)
 
-// siteOf: the first function of the repository (or, failing that, of any non-runtime package) below the panic frame.
+// siteOf: the first function of the repository below the panic frame; when the panic is raised inside a library: `lib:<package><<repository caller>`.
 func siteOf(stack string) string {
 	lines := strings.Split(stack, "\n")
 	seenPanic := false
@@ -79,6 +81,12 @@ func siteOf(stack string) string {
 			break
 		}
 		if strings.HasPrefix(fn, "github.com/ontio/ontology/") {
+			if first != "" { // a panic raised inside a library: one class per (library package, repository caller, kind of panic)
+				if i := strings.Index(first, "."); i > 0 {
+					first = first[:i]
+				}
+				return "lib:" + first + "<" + shortFn(fn)
+			}
 			return shortFn(fn)
 		}
 		if first == "" {
@@ -138,6 +146,8 @@ func workerExec(line string) (res wres) {
 		return execN(f[1], f[2], f[3], f[4])
 	case f[0] == "E" && len(f) == 4:
 		return execE(f[1], f[2], f[3])
+	case f[0] == "W" && len(f) == 3:
+		return execW(f[1], f[2])
 	}
 	return wres{Out: "badline", Kind: "badline"}
 }
@@ -441,7 +451,7 @@ func main() {
 		Gen:     Gen,
 		Exec:    Exec,
 		Corpus:  corpus(),
-		N:       map[string]int{"quick": 6000, "thorough": 40000},
+		N:       map[string]int{"quick": 5000, "thorough": 40000},
 		Isolate: true,
 		Timeout: 500 * time.Second,
 	})
